@@ -1,9 +1,39 @@
 (* Reflective reachability for finite transition systems whose states are encoded as N.
-   [closed next R]: R is closed under next.  If R contains the initial state and is closed,
-   every reachable state is in R; so a property checked on all of R (by computation) holds in
-   every reachable state.  R itself is computed by an (untrusted) worklist search. *)
+   If a list R contains the initial state and is closed under [next] (checked by computation
+   with a positive-trie set for membership), every reachable state is in R; so a property
+   checked on all of R holds in every reachable state.  R itself is produced by an (untrusted)
+   worklist search; nothing is proved about the search. *)
+From Coq Require Import MSets.MSetPositive.
 From BR Require Import Base.Prelude.
 Open Scope N_scope.
+
+Module PS := PositiveSet.
+
+Definition key (n : N) : positive := N.succ_pos n.
+
+Lemma key_inj a b : key a = key b -> a = b.
+Proof. unfold key. intros H. apply (f_equal Npos) in H. rewrite !N.succ_pos_spec in H. lia. Qed.
+
+Definition set_of (l : list N) : PS.t := fold_left (fun s n => PS.add (key n) s) l PS.empty.
+
+Lemma set_of_spec_gen l : forall s n,
+  PS.mem (key n) (fold_left (fun s n => PS.add (key n) s) l s) = true <-> In n l \/ PS.mem (key n) s = true.
+Proof.
+  induction l as [|x l IH]; intros s n; cbn [fold_left In]; [tauto|].
+  rewrite IH. split.
+  - intros [H|H]; [tauto|]. apply PS.mem_spec, PS.add_spec in H. destruct H as [H|H].
+    + left. left. symmetry. apply key_inj. exact H.
+    + right. apply PS.mem_spec. exact H.
+  - intros [[->|H]|H]; [right|left; exact H|right].
+    + apply PS.mem_spec, PS.add_spec. left. reflexivity.
+    + apply PS.mem_spec, PS.add_spec. right. apply PS.mem_spec. exact H.
+Qed.
+
+Lemma set_of_spec l n : PS.mem (key n) (set_of l) = true <-> In n l.
+Proof.
+  unfold set_of. rewrite set_of_spec_gen. split; [intros [H|H]; [exact H|]|tauto].
+  apply PS.mem_spec, PS.empty_spec in H. destruct H.
+Qed.
 
 Section Reach.
   Variable next : N -> list N.
@@ -13,34 +43,54 @@ Section Reach.
   | reach_step s s' : reachable init s -> In s' (next s) -> reachable init s'.
 
   Definition closed (R : list N) : bool :=
-    forallb (fun s => forallb (fun s' => memN s' R) (next s)) R.
+    let S := set_of R in
+    forallb (fun s => forallb (fun s' => PS.mem (key s') S) (next s)) R.
 
-  Lemma closed_sound R init : memN init R = true -> closed R = true ->
-    forall s, reachable init s -> memN s R = true.
+  Lemma closed_sound R init : In init R -> closed R = true ->
+    forall s, reachable init s -> In s R.
   Proof.
     intros Hi Hc s Hr. induction Hr as [|s s' Hr IH Hin]; [exact Hi|].
     unfold closed in Hc. rewrite forallb_forall in Hc.
-    apply memN_In in IH. specialize (Hc s IH). rewrite forallb_forall in Hc. exact (Hc s' Hin).
+    specialize (Hc s IH). rewrite forallb_forall in Hc.
+    apply set_of_spec. exact (Hc s' Hin).
   Qed.
 
   Theorem invariant_by_closure R init (P : N -> bool) :
-    memN init R = true -> closed R = true -> forallb P R = true ->
+    In init R -> closed R = true -> forallb P R = true ->
     forall s, reachable init s -> P s = true.
   Proof.
     intros Hi Hc HP s Hr. pose proof (closed_sound R init Hi Hc s Hr) as Hm.
-    apply memN_In in Hm. rewrite forallb_forall in HP. exact (HP s Hm).
+    rewrite forallb_forall in HP. exact (HP s Hm).
   Qed.
 
-  (* worklist search with fuel (only used to produce R; nothing is proved about it) *)
-  Fixpoint explore (fuel : nat) (todo visited : list N) : list N :=
+  (* finite executions: if a measure strictly decreases along every transition out of a reachable
+     state, a path from a reachable state is no longer than the measure *)
+  Inductive path : N -> list N -> Prop :=
+  | path_nil s : path s []
+  | path_cons s s' p : In s' (next s) -> path s' p -> path s (s' :: p).
+
+  Theorem paths_bounded_by (rank : N -> N) init :
+    (forall s, reachable init s -> forall s', In s' (next s) -> rank s' < rank s) ->
+    forall p s, reachable init s -> path s p -> N.of_nat (length p) <= rank s.
+  Proof.
+    intros Hdec. induction p as [|s' p IH]; intros s Hr Hp; [cbn; lia|].
+    inversion Hp as [|? ? ? Hin Hp']; subst.
+    specialize (Hdec s Hr s' Hin).
+    specialize (IH s' (reach_step init s s' Hr Hin) Hp'). cbn [length]. lia.
+  Qed.
+
+  (* worklist search with fuel (only used to produce R) *)
+  Fixpoint explore (fuel : nat) (todo : list N) (seen : PS.t) (acc : list N) : list N :=
     match fuel with
-    | O => visited
+    | O => acc
     | S f =>
         match todo with
-        | [] => visited
+        | [] => acc
         | s :: todo' =>
-            if memN s visited then explore f todo' visited
-            else explore f (next s ++ todo') (s :: visited)
+            if PS.mem (key s) seen then explore f todo' seen acc
+            else explore f (next s ++ todo') (PS.add (key s) seen) (s :: acc)
         end
     end.
+  Definition explore_from (fuel : N) (init : N) : list N :=
+    explore (N.to_nat fuel) [init] PS.empty [].
 End Reach.
